@@ -48,14 +48,14 @@ def _obj(I, cls):
     return o
 
 
-def apply_reaction_case(cls):
-    P = "C07/%s::ApplyReaction" % cls
+def apply_reaction_case(cls, prop="C07"):
+    P = "%s/%s::ApplyReaction" % (prop, cls)
 
     def run(api):
         prog = C11.program()
         c = api.ctx
         inv0 = dict(K.LOOP_INV)
-        I = K.make_interp(prog, c, "C07", loop_inv=inv0)
+        I = K.make_interp(prog, c, prop, loop_inv=inv0)
         I.check_integrality = True
         o = _obj(I, cls)
         f = o.fields
